@@ -56,6 +56,7 @@ class SchedRec:
         self.ids: Dict[int, int] = {}
         self.early_children: set = set()        # modules analysed before the __init__ of a package above them
         self.plain_unanalysed: set = set()      # (scope, target) of plain imports that met a module not analysed yet
+        self.moved_at_start: Dict[str, frozenset] = {}   # module -> the objects re-exports had moved when it was entered
 
     def mid(self, mod) -> int:
         return self.ids[id(mod)]
@@ -75,6 +76,7 @@ class SchedRec:
                     rec.early_children.add(origin(mod).split("@")[0])
                     break
                 par = par.parent
+            rec.moved_at_start[origin(mod).split("@")[0]] = frozenset(og for og, _dst in rec.moves)
             rec.log.append("start%s" % i)
             rec.stack.append(mod)
             try:
@@ -442,6 +444,47 @@ def star_in_cycle(units: List[Unit], imports: Dict[int, List[int]]) -> bool:
     return False
 
 
+def reexport_in_cycle(units: List[Unit], imports: Dict[int, List[int]]) -> bool:
+    """is there a module that lists in its `__all__` a name it takes with `from m import name` from a module `m` that lies
+    on an import cycle through the importer?  Python executes that statement only if `m` has bound the name already,
+    i.e. the program is importable from one entry point and raises ImportError from the other (pydoctor moves the
+    object in one order and finds nothing to move in the other): like a star import inside a cycle, outside the property"""
+    import re
+    idx = {u.qname: i for i, u in enumerate(units)}
+
+    def reach(a, b):
+        seen, todo = set(), [a]
+        while todo:
+            x = todo.pop()
+            for y in imports.get(x, []):
+                if y == b:
+                    return True
+                if y not in seen:
+                    seen.add(y)
+                    todo.append(y)
+        return False
+    for i, u in enumerate(units):
+        ma = re.search(r"^__all__\s*(?::[^=]*)?=\s*(\[.*?\])", u.source, re.M | re.S)
+        if not ma:
+            continue
+        exported = set(re.findall(r"['\"]([^'\"]+)['\"]", ma.group(1)))
+        pkg = u.qname if u.is_package else (u.parent or "")
+        for m in re.finditer(r"^from (\.*)([\w.]*) import ([^\n(]+)", u.source, re.M):
+            dots, name, what = m.groups()
+            if dots:
+                parts = pkg.split(".") if pkg else []
+                parts = parts[:len(parts) - (len(dots) - 1)] if len(dots) > 1 else parts
+                name = ".".join(parts + ([name] if name else []))
+            t = idx.get(name)
+            if t is None or not (t == i or reach(t, i)):
+                continue
+            for item in what.split(","):
+                bits = item.split()
+                if bits and (bits[-1] in exported):
+                    return True
+    return False
+
+
 def moved_origins(system) -> set:
     return {origin(o) for o in system.allobjects.values()
             if getattr(o, "_verif_orig", None) is not None and o._verif_orig != o.fullName() and " " not in o.name}
@@ -673,7 +716,25 @@ def classify(a: Dict[str, Any], b: Dict[str, Any], moved: set, src: Dict[str, st
         if all(f in ("present", "bases", "mro", "mro_resolved", "parent", "docsources") or k in other_kind for k, f, _x, _y in its) \
                 and counterfactual(parents_first=True):
             return "order-dependent:submodule-analysed-before-its-package", "%s: %s %r vs %r" % its[0]
-    if reexp and shapes and kinds <= {"wrap", "zope", "docassign"} and all(sh != "docassign" or it[0] in moved for it, sh in shapes):
+    def visit_time_direction() -> bool:
+        # the open zope finding is a VISIT-TIME look-up that misses a base a re-export has moved already: the class is the
+        # plain CLASS under the order in which MORE had been moved when its module was entered.  An INTERFACE / CLASS
+        # difference in the other direction (or with the same moves before the module) has another cause
+        right = seen = False
+        for (k, f, x, y), sh in shapes:
+            if sh == "zope" and f == "kind" and {x, y} == {"INTERFACE", "CLASS"}:
+                mod = max((q for q in src if (k + ".").startswith(q + ".")), key=len, default=None)
+                if mod is None:
+                    return False
+                ma, mb = ev_a[2].get(mod, frozenset()), ev_b[2].get(mod, frozenset())
+                lesser, greater = (ma, mb) if x == "CLASS" else (mb, ma)
+                if lesser < greater:
+                    return False        # the plain CLASS where LESS had been moved: not a visit-time miss
+                right = right or greater < lesser       # (equal: a subclass that follows its base's kind)
+                seen = True
+        return right or not seen
+    if reexp and shapes and kinds <= {"wrap", "zope", "docassign"} and all(sh != "docassign" or it[0] in moved for it, sh in shapes) \
+            and visit_time_direction():
         sig = "attribute-wrapping-inherited-method" if "wrap" in kinds else "zope-kind-of-moved-interface" if "zope" in kinds \
             else "docstring-assignment-to-moved-object"
         return "order-dependent:reexport:" + sig, first
@@ -683,9 +744,10 @@ def classify(a: Dict[str, Any], b: Dict[str, Any], moved: set, src: Dict[str, st
     if sig == "base-moved-onto-the-name-of-its-module":
         tag = "reexport"
     if sig in ("attribute-wrapping-inherited-method", "zope-kind-of-moved-interface"):
-        # the open findings of that name are the cases above, where EVERY difference has the shape; here something else differs too
-        other = [it for it, sh in shapes if sh == "other"]
-        sig, what = "objects-differ" if other and other[0][1] == "present" else (other[0][1] + "-differs" if other else sig), \
+        # the open findings of that name are the cases above, where EVERY difference has the shape (and the direction of
+        # a visit-time look-up); here something else differs too, or the direction is the other one
+        other = [it for it, sh in shapes if sh == "other"] or [it for it, sh in shapes if sh == "zope" and it[1] == "kind"]
+        sig, what = "objects-differ" if other and other[0][1] == "present" else (other[0][1] + "-differs" if other else "kind-differs"), \
             ("%s: %s %r vs %r" % other[0] if other else what)
     if sig == "moved-base-unresolved":
         tag, sig = "reexport", "bases-differs"
@@ -933,9 +995,12 @@ def plain_body_scenario(rng) -> List[Unit]:
     base = rng.choice(["base", "mbase", "zbase"])
     user = rng.choice(["user", "a_user", "zuser"])
     q = (lambda m: "top." + m) if inpkg else (lambda m: m)
-    form = rng.choice(["import", "import", "import_as"])
+    form = rng.choice(["import", "import", "import_as"] + (["from_as"] if inpkg else []))
     if form == "import":
         imp, pref = "import " + q(base), q(base)
+    elif form == "from_as":
+        # `from <package> import <sub-module> as <alias>`: the sub-module is analysed on demand under its REAL name
+        imp, pref = "from top import %s as _b" % base, "_b"
     else:
         imp, pref = "import %s as _b" % q(base), "_b"
     zope = rng.random() < 0.3
@@ -1063,6 +1128,122 @@ def subpackage_reexport_scenario(rng) -> List[Unit]:
     return units + ((ip + ap) if rng.random() < 0.5 else (ap + ip))
 
 
+def iface_chain_scenario(rng) -> List[Unit]:
+    """zope.interface: a CHAIN of interfaces over several modules whose bases are only resolved late — the first level
+    reaches `Interface`'s child through a module that merely re-imports it (no visit-time resolution: aliases are not
+    followed recursively), the next level imports the middle interface from its DEFINING module while exactly one other
+    module re-exports it through __all__ (the move re-inserts it at the end of System.allobjects); 2–3 levels; two roots
+    or the modules of one package, the re-exporter sorting before or after the module of the derived interface.  No cycle.
+    Anything that decides INTERFACE / CLASS in one pass over the objects depends on the order here."""
+    two_roots = rng.random() < 0.5
+    a = "acme"
+    ext = "acme_ext" if two_roots else a
+    api = rng.choice(["api", "aapi", "zapi"])
+    cache = rng.choice(["cache", "acache", "zcache"])
+    late1 = rng.random() < 0.7
+    units = [Unit(a, True, "", None),
+             Unit(a + "._ifaces", False, "from zope.interface import Interface\nclass IResource(Interface):\n    def open():\n        'open it'\n", a),
+             Unit(a + ".compat", False, "from %s._ifaces import IResource\n" % a, a),
+             Unit(a + ".storage", False, "from %s.%s import IResource\nclass IStore(IResource):\n    def put(key, value):\n        'store'\n"
+                  % (a, "compat" if late1 else "_ifaces"), a),
+             Unit(a + "." + api, False, "from %s.storage import IStore\n__all__ = ['IStore']\n" % a, a)]
+    cachesrc = ["from %s.storage import IStore" % a, "class ICache(IStore):", "    def evict(key):", "        'forget'"]
+    third = rng.random() < 0.5
+    if third and rng.random() < 0.5:
+        cachesrc += ["class ILru(ICache):", "    pass"]
+        third = False
+    tail = [Unit(ext + "." + cache, False, "\n".join(cachesrc) + "\n", ext)]
+    if third:
+        tail.append(Unit(ext + "." + rng.choice(["alru", "zlru"]), False, "from %s.%s import ICache\nclass ILru(ICache):\n    pass\n" % (ext, cache), ext))
+    if rng.random() < 0.4:
+        tail.append(Unit(ext + ".impl", False, "from zope.interface import implementer\nfrom %s.%s import ICache\n@implementer(ICache)\nclass Cache:\n    pass\n" % (ext, cache), ext))
+    if two_roots:
+        extu = [Unit(ext, True, "", None)] + tail
+        return (units + extu) if rng.random() < 0.5 else (extu + units)
+    inner = units[1:] + tail
+    rng.shuffle(inner)
+    return [units[0]] + inner
+
+
+def write_tree(root: Path, units: List[Unit]) -> None:
+    for u in units:
+        rel = Path(*u.qname.split("."))
+        f = (root / rel / "__init__.py") if u.is_package else (root / rel).with_suffix(".py")
+        f.parent.mkdir(parents=True, exist_ok=True)
+        f.write_text(u.source)
+
+
+def cmdline_stream(ctx: Ctx) -> None:
+    """the order of the PATHS ON THE COMMAND LINE: generated projects written to a temporary directory and analysed
+    through `Options.from_args` + `driver.get_system` (what `pydoctor <path> <path> ...` does before it renders), with
+    the roots — and, half of the time, paths that OVERLAP them: a sub-package directory or a module file inside a root,
+    which pydoctor then documents a second time as a root of its own — given in every order; canonical dumps compared"""
+    import tempfile
+    from pydoctor.driver import get_system
+    from pydoctor.options import Options
+    def overlap_tree(rng) -> List[Unit]:
+        # a package with a sub-package and a second root, no re-export: made for overlapping paths
+        sub = rng.choice(["tools", "atools", "zz"])
+        return [Unit("acme", True, "'''acme'''\nfrom acme.core import Base\n", None), Unit("acme.core", False, "class Base:\n    'doc'\n", "acme"),
+                Unit("acme." + sub, True, "'''sub-package'''\n", "acme"),
+                Unit("acme.%s.fmt" % sub, False, "from acme.core import Base\nclass Fmt(Base):\n    pass\n", "acme." + sub),
+                Unit(rng.choice(["other", "another"]), False, "import acme.core\nclass O(acme.core.Base):\n    pass\n", None)]
+    fams = [submodule_scenario, early_submodule_scenario, subpackage_reexport_scenario, plain_body_scenario, hierarchy_scenario,
+            overlap_tree, overlap_tree, overlap_tree]
+    for _ in range(8 if ctx.quick else 60):
+        units = ctx.rng.choice(fams)(ctx.rng)
+        qs = {u.qname for u in units}
+        roots = [u for u in units if u.parent is None]
+        inner = [u for u in units if u.parent is not None and u.name not in {r.name for r in roots}]
+        extra = ctx.rng.sample(inner, min(len(inner), ctx.rng.choice([0, 1, 1, 2])))
+        if len(roots) + len(extra) < 2:
+            extra = inner[:1]
+        if extra and any("__all__" in u.source for u in units):
+            # a file given twice is analysed under two names: a re-exporter among them doubles, and the object it moves
+            # has TWO re-exporters — outside the property ("re-exported by a single module")
+            extra = []
+            ctx.count("command-line:overlap-dropped:re-exporter-would-be-doubled")
+        if len(roots) + len(extra) < 2:
+            continue
+        with tempfile.TemporaryDirectory(prefix="verif-c06-") as tmp:
+            root = Path(tmp)
+            write_tree(root, units)
+
+            def path_of(u):
+                rel = root / Path(*u.qname.split("."))
+                return rel if u.is_package else rel.with_suffix(".py")
+            paths = [path_of(u) for u in roots + extra]
+            perms = list(itertools.permutations(range(len(paths))))
+            if len(perms) > 6:
+                perms = [perms[0]] + ctx.rng.sample(perms[1:], 5)
+            ctx.count("command-line:projects")
+            ctx.count("command-line:overlapping-paths" if extra else "command-line:disjoint-paths")
+            ref = None
+            for pm in perms:
+                args = ["--quiet", "--quiet", "--project-name=x"] + [str(paths[k]) for k in pm]
+                rel = [str(paths[k].relative_to(root)) for k in pm]
+                try:
+                    with contextlib.redirect_stdout(io.StringIO()), contextlib.redirect_stderr(io.StringIO()):
+                        sysm = get_system(Options.from_args(args))
+                except BaseException as e:   # noqa: BLE001  (SystemExit included: a run that refuses its arguments)
+                    dump: Any = {"<outcome>": type(e).__name__}
+                else:
+                    dump = canon(sysm, hierarchy_only=False)
+                ctx.case(repr((sorted((u.qname, u.source) for u in units), rel)), True, None)
+                ctx.count("command-line:orders")
+                if ref is None:
+                    ref = (rel, dump)
+                elif dump != ref[1]:
+                    if set(dump) != set(ref[1]):
+                        what = "documented under one order only: %s" % sorted(set(dump) ^ set(ref[1]))[:4]
+                        sig = "objects-differ"
+                    else:
+                        sig, what = diff_sig(ref[1], dump)
+                    ctx.fail("order-dependent:command-line:" + sig, {"units": {u.qname: u.source for u in units}, "paths": rel, "reference_paths": ref[0]},
+                             f"pydoctor {' '.join(ref[0])} vs pydoctor {' '.join(rel)}: {what}")
+                    break
+
+
 def hunt_corpus() -> List[List[Unit]]:
     """the inputs of hunt/C06/1..4 (and the `noticed` docstring-assignment case), both layouts each, and of the round-2
     finding that 824faae repaired on the way; the orders are enumerated like for every other project"""
@@ -1073,6 +1254,7 @@ def hunt_corpus() -> List[List[Unit]]:
     user = "import %s\ndef deco(f):\n    return f\nclass Y(%s.B):\n    meth = deco(%s.B.meth)\n%s.helper.__doc__ = 'documented by user'\n"
     return [
         mk(("base", base), ("user", user % (("base",) * 4))),
+        mk(("top", ""), ("top.base", base), ("top.a_user", user.replace("import %s\n", "from top import base as %s\n", 1) % (("_b",) * 4))),
         mk(("top", ""), ("top.base", base), ("top.a_user", user % (("top.base",) * 4))),
         mk(("impl", "class C:\n    'doc'\n"), ("public", "from impl import C\n__all__ = ['C']\n"), ("compat", "from impl import *\n"),
            ("client", "from compat import C\nclass Sub(C):\n    pass\n")),
@@ -1092,6 +1274,12 @@ def hunt_corpus() -> List[List[Unit]]:
         mk(("lib", "from ext import Thing\n"), ("app", "import lib\nclass Special(lib.Thing):\n    pass\n")),
         # a class published by assignment from a ROOT module that imports the consumer back under TYPE_CHECKING: taken up
         # first, that module makes the package bind `Thing` before the class exists, and the consumer looks it up then
+        # (seeded round 5) a chain of interfaces with late-resolved bases, the middle one re-exported by one module
+        mk(("acme", ""), ("acme._ifaces", "from zope.interface import Interface\nclass IResource(Interface):\n    def open():\n        'open it'\n"),
+           ("acme.compat", "from acme._ifaces import IResource\n"),
+           ("acme.storage", "from acme.compat import IResource\nclass IStore(IResource):\n    def put(key, value):\n        'store'\n"),
+           ("acme.api", "from acme.storage import IStore\n__all__ = ['IStore']\n"), ("acme_ext", ""),
+           ("acme_ext.cache", "from acme.storage import IStore\nclass ICache(IStore):\n    def evict(key):\n        'forget'\n")),
         mk(("pk/", "import aimpl\nThing = aimpl.Thing\n"),
            ("aimpl", "from typing import TYPE_CHECKING\nif TYPE_CHECKING:\n    import app\nclass Root:\n    pass\nclass Thing(Root):\n    pass\n"),
            ("app", "from pk import Thing\nclass Special(Thing):\n    pass\n")),
@@ -1122,6 +1310,9 @@ def run(ctx: Ctx) -> None:
         elif i % 32 == 22:
             units = subpackage_reexport_scenario(ctx.rng)
             ctx.count("projects:subpackage-reexport-scenario")
+        elif i % 32 == 31:
+            units = iface_chain_scenario(ctx.rng)
+            ctx.count("projects:interface-chain-scenario")
         elif i % 4 == 3:
             # the re-export scenarios of C07 (single re-exporter, consumers of definer / re-exporter)
             units, _meta = reexport_project(ctx.rng)
@@ -1244,6 +1435,9 @@ def run(ctx: Ctx) -> None:
             if pycyc and star_in_cycle(units, py_imports):
                 ctx.count("oracle-skipped:star-import-inside-cycle")
                 continue
+            if pycyc and reexport_in_cycle(units, py_imports):
+                ctx.count("oracle-skipped:re-export-inside-cycle")
+                continue
             if inh_cyc or inheritance_cycle(s):
                 # class D(K) ... class K(D): not a Python program (NameError on import); what pydoctor makes of it
                 # depends on which class it meets first.  The cycle may be visible under SOME orders only (under the
@@ -1256,7 +1450,7 @@ def run(ctx: Ctx) -> None:
             c = canon(s, hierarchy_only=pycyc)
             mv = moved_origins(s) if pycyc else {o.fullName() for o in s.allobjects.values()
                                                  if getattr(o, "_verif_orig", o.fullName()) != o.fullName() and " " not in o.name}
-            ev = (rec.plain_unanalysed, rec.early_children)
+            ev = (rec.plain_unanalysed, rec.early_children, rec.moved_at_start)
             if ref is None:
                 ref = (od, c, mv, ev)
             elif c != ref[1]:
@@ -1272,6 +1466,7 @@ def run(ctx: Ctx) -> None:
             ctx.count("oracle-skipped:object-with-several-reexporters")
     for _i, sig, inp, what in pending:
         ctx.fail(sig, inp, what)
+    cmdline_stream(ctx)
     # real packages under reachable orders (direct oracle only: the Lean model's import lists come from generated projects)
     norders = 4 if ctx.quick else 12
     for label, paths in real_corpus(ctx.quick):
@@ -1283,7 +1478,7 @@ def run(ctx: Ctx) -> None:
         try:
             with SchedRec() as rec0r:
                 s0, names0 = build_real(paths, ctx.rng, False)
-            ev0 = (rec0r.plain_unanalysed, rec0r.early_children)
+            ev0 = (rec0r.plain_unanalysed, rec0r.early_children, rec0r.moved_at_start)
         except Exception as e:
             ctx.fail("real-package-crash:" + type(e).__name__, {"package": label, "order": None}, f"{label}: {type(e).__name__}: {e}")
             continue
@@ -1322,7 +1517,7 @@ def run(ctx: Ctx) -> None:
                 mvd = (moved_origins(s) | moved_origins(s0)) if cyc else \
                     {o.fullName() for sy in (s, s0) for o in sy.allobjects.values()
                      if getattr(o, "_verif_orig", o.fullName()) != o.fullName() and " " not in o.name}
-                full, what = classify(ref, c, mvd, srcs, "cyclic" if cyc else "real:" + label, True, ev0, (rec.plain_unanalysed, rec.early_children),
+                full, what = classify(ref, c, mvd, srcs, "cyclic" if cyc else "real:" + label, True, ev0, (rec.plain_unanalysed, rec.early_children, rec.moved_at_start),
                                       lambda **emu: agree_under(lambda o, r: build_real(paths, ctx.rng, False, o)[0], names0, names, cyc, **emu))
                 if full.startswith("order-dependent:cyclic:"):
                     full = "order-dependent:real:%s:%s" % (label, full[len("order-dependent:"):])
